@@ -30,7 +30,7 @@ func init() {
 			"with bytes allocated during the rejected call measured from runtime.MemStats against a control (the same number of incompressible bytes through the same wrapping): bound = control + 8 x limit + 4 MiB; metamorphic: genuine, non-conforming and corrupted messages presented raw and DEFLATE-compressed at a drawn level must give the same acceptance, data and error class; distinct = shape hash (family, limit, delta, entry point, padding family, level, outcome)",
 		Directed:   c12Directed,
 		Run:        c12Run,
-		MustHit:    []string{"family=boundary", "family=bomb", "family=metamorphic", "family=bomb-in-encrypted", "delta=-1", "delta=0", "delta=+1", "limit=unset", "limit=1", "limit=4096", "pad=after-root", "pad=inside-root", "alloc_measured", "router_peeked_first"},
+		MustHit:    []string{"family=boundary", "family=bomb", "family=metamorphic", "family=bomb-in-encrypted", "delta=-1", "delta=0", "delta=+1", "limit=unset", "limit=1", "limit=4096", "pad=after-root", "pad=inside-root", "alloc_measured", "router_peeked_first", "encoder=stored-blocks", "encoder=stored-blocks-text-clean"},
 		RandomRuns: map[string]int{"quick": 400, "thorough": 6000},
 		Assumptions: []string{"allocation bound is checked for rejected over-limit inputs only (an accepted document is legitimately parsed into a tree several times its size); stack and allocator slack are not measured",
 			"each worker process runs one goroutine, so TotalAlloc deltas belong to the call"},
@@ -68,6 +68,14 @@ func c12Directed(tier string) [][]uint64 {
 	}
 	for i := uint64(0); i < 40; i++ {
 		out = append(out, []uint64{2, i % 5, 0, i % 6, 0, i})
+	}
+	// hand-made stored-block streams (limit unset, genuine / non-conforming message, every entry point)
+	for ep := uint64(0); ep < 6; ep++ {
+		for enc := uint64(7); enc < 10; enc++ {
+			for kind := uint64(0); kind < 2; kind++ {
+				out = append(out, []uint64{2, 0, 0, ep, 0, kind, enc})
+			}
+		}
 	}
 	return out
 }
@@ -157,6 +165,7 @@ func c12Run(r *core.Run) {
 	ep := c12EPs[t.Int(6, "c12.ep")]
 	padAfter := t.Int(2, "c12.pad") == 1
 	sel := t.Int(64, "c12.sel")
+	encSel := t.Int(10, "c12.level") // metamorphic family: which DEFLATE encoder presents the message
 
 	s := NewStd(r)
 	s.DrawLive()
@@ -183,16 +192,23 @@ func c12Run(r *core.Run) {
 
 	// a genuine base of the kind the entry point expects (assertion-signed so that padding
 	// inside the Response stays outside any signature)
-	mkBase := func() string {
-		var m *world.LResponse
-		switch ep {
-		case "ValidateEncodedLogoutRequestPOST":
-			m = world.GenLogout(t, s.IdP, s.Fed, now, "LogoutRequest")
-		case "ValidateEncodedLogoutResponsePOST", "DecodeUnverifiedLogoutResponse":
-			m = world.GenLogout(t, s.IdP, s.Fed, now, "LogoutResponse")
-		default:
-			m = world.GenResponse(t, s.IdP, s.Fed, now, 1, false)
-			m.Assertions[0].Sign = world.PlainSigOpts(s.IdPKey, s.IdPCert)
+	var baseMsg *world.LResponse
+	issueBase := func(bulk int) string {
+		m := baseMsg
+		if bulk > 0 {
+			c := *baseMsg
+			m = &c
+			filler := strings.Repeat("x", bulk)
+			switch {
+			case m.Kind == "LogoutRequest":
+				m.NameID = strp(*m.NameID + filler)
+			case m.Kind == "LogoutResponse":
+				m.InResponseTo += filler
+			default:
+				a := *m.Assertions[0]
+				a.Attrs = append(append([]world.LAttr(nil), a.Attrs...), world.LAttr{Name: "bulk", Values: []string{filler}})
+				m.Assertions = []*world.LAssertion{&a}
+			}
 		}
 		x, err := s.IdP.Issue(m, world.Layout{}, r.Sim.Now())
 		if err != nil {
@@ -200,6 +216,18 @@ func c12Run(r *core.Run) {
 			return ""
 		}
 		return x
+	}
+	mkBase := func() string {
+		switch ep {
+		case "ValidateEncodedLogoutRequestPOST":
+			baseMsg = world.GenLogout(t, s.IdP, s.Fed, now, "LogoutRequest")
+		case "ValidateEncodedLogoutResponsePOST", "DecodeUnverifiedLogoutResponse":
+			baseMsg = world.GenLogout(t, s.IdP, s.Fed, now, "LogoutResponse")
+		default:
+			baseMsg = world.GenResponse(t, s.IdP, s.Fed, now, 1, false)
+			baseMsg.Assertions[0].Sign = world.PlainSigOpts(s.IdPKey, s.IdPCert)
+		}
+		return issueBase(0)
 	}
 
 	switch family {
@@ -387,10 +415,67 @@ func c12Run(r *core.Run) {
 			r.Shape("metamorphic.na")
 			return
 		}
-		level := []int{6, 1, 9, 0, -1, 4}[t.Int(6, "c12.level")]
+		level := []int{6, 1, 9, 0, -1, 4, -2, 100, 101, 102}[encSel]
+		var comp []byte
+		switch {
+		case level <= 9:
+			comp = world.Deflate([]byte(x), level) // -2 = Huffman only
+		case level == 100:
+			// stored blocks of drawn sizes with drawn padding bits in every block header
+			rs := core.NewSplitMix(uint64(t.Draw(1<<32, "c12.stored")) + 3)
+			var sizes []int
+			for i := 0; i < 40; i++ {
+				sizes = append(sizes, 1+int(rs.Next()%uint64(1+len(x))))
+			}
+			comp = world.StoredDeflate([]byte(x), sizes, func(int) byte { return byte(rs.Next()) }, rs.Next()%2 == 0)
+			r.Probe("encoder=stored-blocks")
+		default:
+			// stored blocks whose headers consist of characters that are legal in XML text, so that the
+			// stream read as a raw document stays well-formed across block boundaries; the boundaries
+			// fall inside (signed) content. 101: the final block is an empty one (octets 01 00 00 ff ff),
+			// 102: the final block header is text-clean as well
+			if kind > 1 || limit != 0 {
+				r.Shape("metamorphic.na")
+				return
+			}
+			rs := core.NewSplitMix(uint64(t.Draw(1<<32, "c12.stored")) + 5)
+			var sizes []int
+			total := 0
+			for i := 0; i < 2+int(rs.Next()%2); i++ {
+				n := 0
+				for !world.TextCleanBlockLen(n) {
+					n = 0x4020 + int(rs.Next()%0x3f00)
+				}
+				sizes = append(sizes, n)
+				total += n
+			}
+			x1 := issueBase(1)
+			x = issueBase(1 + total - len(x1))
+			if kind == 1 {
+				x = strings.Replace(x, `Version="2.0"`, `Version="1.1"`, 1)
+			}
+			if len(x) != total {
+				r.HarnessError("bulk base has length %d, wanted %d", len(x), total)
+				return
+			}
+			hdr := func(i int) byte {
+				if i == len(sizes)-1 && level == 102 {
+					return 0x08 // with BFINAL this is a TAB
+				}
+				return world.TextCleanHeaders[rs.Next()%uint64(len(world.TextCleanHeaders))]
+			}
+			comp = world.StoredDeflate([]byte(x), append(sizes, 0), hdr, level == 101)
+			r.Probe("encoder=stored-blocks-text-clean")
+			desc += fmt.Sprintf("/stored-text-clean(final-clean=%v,blocks=%d)", level == 102, len(sizes))
+		}
+		// the stream must inflate to the message (harness self-check)
+		if inf, err := world.Inflate(comp); err != nil || string(inf) != x {
+			r.HarnessError("hand-made DEFLATE stream does not inflate to the message: %v", err)
+			return
+		}
 		r.Fault("recompress")
 		or, dr := c12Call(s.Node, ep, world.B64([]byte(x)))
-		oc, dc := c12Call(s.Node, ep, world.B64(world.Deflate([]byte(x), level)))
+		oc, dc := c12Call(s.Node, ep, world.B64(comp))
 		r.Steps += 2
 		ctx["message"], ctx["level"], ctx["raw_err"], ctx["compressed_err"] = desc, level, fmt.Sprint(or.Err), fmt.Sprint(oc.Err)
 		r.Logf("metamorphic %s ep=%s level=%d raw=%s compressed=%s", desc, ep, level, or.Class(), oc.Class())
